@@ -54,4 +54,9 @@ theorem display_parse (b : Board) (hwf : b.WF = true) (hh : b.half ≤ 9999) (hf
   cases h
   rfl
 
+/-- the standard-position constructor is what the parser produces from the start FEN -/
+theorem standard_is_parsed :
+    parseFen ("rnbqkbnr/pppppppp/8/8/8/8/PPPPPPPP/RNBQKBNR w KQkq - 0 0".toList.map (fun c => Fin.ofNat 256 c.toNat)) = .ok Board.standard := by
+  rw [← standard_text]; exact standard_parse
+
 end Chess.Props.C05
